@@ -28,9 +28,10 @@ def layout_xy(li):
     if li is None:
         return None
     o = li.origin
-    good = (o is not None and str(o.x.unit) == "%" and str(o.y.unit) == "%" and li.extent is None
+    val = lambda e: getattr(e, "value", e)
+    good = (o is not None and val(o.x.unit) == "%" and val(o.y.unit) == "%" and li.extent is None
             and li.padding is None and li.alignment is not None
-            and str(li.alignment.horizontal) == "left" and str(li.alignment.vertical) == "top")
+            and val(li.alignment.horizontal) == "left" and val(li.alignment.vertical) == "top")
     return [exact(o.x.value), exact(o.y.value)] if good else ["bad-layout", repr(li)]
 
 
